@@ -98,24 +98,13 @@ theorem C19_staking_payout (rate : Dec) (now last : Int) (s : StakingSt)
       paid = (calculateStakingRewards now last s.err rate (Dec.ofInt s.pool)).1 ∧
       s'.err = (calculateStakingRewards now last s.err rate (Dec.ofInt s.pool)).2 ∧
       0 ≤ paid ∧ paid ≤ s.pool ∧ s'.pool = s.pool - paid ∧ s'.fee = s.fee + paid ∧
-      s'.last = some now ∧ 0 ≤ s'.err.m ∧ s'.err.m < P := by
-  obtain ⟨c1, c2, c3, c4, -, -⟩ := calc_step now last s.err rate s.pool hd hr he.1 he.2 hp _ rfl
-  unfold payout
-  rw [hl]
-  simp only []
-  generalize calculateStakingRewards now last s.err rate (Dec.ofInt s.pool) = r at *
-  by_cases h0 : r.1 = 0
-  · simp only [h0, ite_true]
-    exact ⟨_, _, rfl, rfl, rfl, by omega, by omega, by simp only []; omega, by simp only []; omega, rfl, c1, c2⟩
-  · have h1 : ¬ r.1 < 0 := by omega
-    have h2 : ¬ s.pool < r.1 := by omega
-    simp only [h0, h1, h2, ite_false]
-    exact ⟨_, _, rfl, rfl, rfl, c3, c4, rfl, rfl, rfl, c1, c2⟩
+      s'.last = some now ∧ 0 ≤ s'.err.m ∧ s'.err.m < P :=
+  payout_ok rate now last s hl hd hr he hp
 
 /-- the first call on an un-initialised state only records the time -/
 theorem C19_staking_payout_init (rate : Dec) (now : Int) (s : StakingSt) (hl : s.last = none) :
-    payout rate now s = .ok ({ s with last := some now }, 0) := by
-  unfold payout; rw [hl]
+    payout rate now s = .ok ({ s with last := some now }, 0) :=
+  payout_init rate now s hl
 
 example : (payout ⟨1500000000000000000⟩ 3000000000
     { last := some 1000000000, err := ⟨900000000000000000⟩, pool := 10, fee := 0 }) =
@@ -168,41 +157,109 @@ example : runDisable { upgradeTime := some 100, rate := Dec.zero, upgradeRate :=
 
 /-- Because x/community runs before x/kavadist (generated order), kavadist already mints nothing in the
     very block in which the switch-over fires, and keeps minting nothing in every later block while the
-    trigger is zero and kavadist inactive; its `previousBlockTime` is not advanced either. -/
-theorem C19_disable_same_block (v : Variant) (now inflow : Int) (c c' : Chain)
-    (h : chainBeginBlock v now inflow c = .ok c') :
+    trigger is zero and kavadist inactive; its `previousBlockTime` is not advanced either, and the
+    supply only changes by what x/mint itself provisions (`mintProv`). -/
+theorem C19_disable_same_block (v : Variant) (zp : Bool) (pow : Int → Int → Int) (now inflow mintProv : Int)
+    (c c' : Chain) (h : chainBeginBlock v zp pow now inflow mintProv c = .ok c') :
     (∀ u, c.comm.params.upgradeTime = some u → u ≤ now →
-      c'.fired = true ∧ c'.kdMints = [] ∧ c'.kd = c.kd ∧ c'.comm.params.upgradeTime = none ∧
+      c'.fired = true ∧ c'.kdMints = [] ∧ c'.kdMinted = 0 ∧ c'.kd = c.kd ∧ c'.supply = c.supply + mintProv ∧
+      c'.comm.params.upgradeTime = none ∧
       c'.comm.infl.mintMin = Dec.zero ∧ c'.comm.infl.mintMax = Dec.zero ∧
       c'.comm.infl.kavadistActive = false) ∧
     (c.comm.params.upgradeTime = none → c.comm.infl.kavadistActive = false →
-      c'.fired = false ∧ c'.kdMints = [] ∧ c'.kd = c.kd ∧ c'.comm.params = c.comm.params ∧
-      c'.comm.infl = c.comm.infl) := by
+      c'.fired = false ∧ c'.kdMints = [] ∧ c'.kdMinted = 0 ∧ c'.kd = c.kd ∧ c'.supply = c.supply + mintProv ∧
+      c'.comm.params = c.comm.params ∧ c'.comm.infl = c.comm.infl) := by
   rw [chain_eq] at h
   split at h
   · rename_i s f p hcb
     obtain ⟨e1, e2, e3⟩ := community_infl now inflow c.comm s f p hcb
-    injection h with h
-    subst h
     constructor
     · intro u hu hge
       rw [disable_fires now c.comm.params c.comm.infl u hu hge] at e1 e2 e3
       simp only [] at e1 e2 e3
-      simp only [e1, e2, e3, mintPeriodInflation, Bool.not_false, ite_true, List.append_nil, and_self]
+      rw [kavadist_inactive _ _ _ _ _ (by simp only [e3])] at h
+      injection h with h
+      subst h
+      simp only [e1, e2, e3, and_self]
     · intro hn ha
       rw [disable_none now c.comm.params c.comm.infl hn] at e1 e2 e3
       simp only [] at e1 e2 e3
-      simp only [e1, e2, e3, ha, mintPeriodInflation, Bool.not_false, ite_true, List.append_nil, and_self]
+      rw [kavadist_inactive _ _ _ _ _ (by simp only [e3, ha])] at h
+      injection h with h
+      subst h
+      simp only [e1, e2, e3, and_self]
   · cases h
   · cases h
 
 /-- non-vacuity: a block on the disable time with an active kavadist period -/
-example : (chainBeginBlock .current 2000000000 0
+example : (chainBeginBlock .current true relPow18 2000000000 0 0
     { comm := { params := { upgradeTime := some 2000000000, rate := Dec.zero, upgradeRate := ⟨P⟩ },
                 infl := { mintMin := ⟨1⟩, mintMax := ⟨2⟩, kavadistActive := true, communityTax := ⟨3⟩ },
                 stk := { last := some 1000000000, err := Dec.zero, pool := 10, fee := 0 } },
-      kd := { prev := some 1000000000, periods := [⟨0, 9000000000, ⟨P + 1⟩⟩], infra := [] } }).isOk = true := by
+      kd := { prev := some 1000000000, periods := [⟨0, 9000000000, ⟨P + 1⟩⟩], infra := [] },
+      supply := 1000 }).isOk = true := by
   decide
+
+/-  FULL STATEMENT — FALSE ON THE CURRENT CODE (findings/C19-infra-zero-mint-panic.md):
+
+    theorem C19_begin_block_no_panic : ∃ c', chainBeginBlock v true pow now inflow mintProv c = .ok c'
+      (for non-negative rates, pool and inflow, a carried error in [0,1), block time not before the last
+       accumulation time)
+
+    The schedule can only be followed if the begin blockers that implement it run.  An infrastructure
+    period whose mint call yields zero coins (two blocks inside the same Unix second, an inflation of
+    exactly 1.0, a tiny supply) makes `mintInfrastructurePeriods` dereference the nil amount of the empty
+    `sdk.Coin{}` returned by `mintInflationaryCoins`: x/kavadist's BeginBlocker panics. -/
+
+/-- the negation: a valid configuration (one ongoing infrastructure period with inflation 1.0, a 6 s
+    block) on which the begin blocker of the current code (`zp = true`) panics -/
+theorem C19_begin_block_no_panic_counterexample :
+    ¬ (∀ (now : Int) (c : Chain), 0 ≤ c.comm.params.rate.m → 0 ≤ c.comm.params.upgradeRate.m →
+        (∀ l, c.comm.stk.last = some l → l ≤ now) → (0 ≤ c.comm.stk.err.m ∧ c.comm.stk.err.m < P) →
+        0 ≤ c.comm.stk.pool → validPeriods 0 c.kd.infra →
+        ∃ c', chainBeginBlock .current true relPow18 now 0 0 c = .ok c') := by
+  intro h
+  obtain ⟨c', hc⟩ := h 1700000006000000000
+    { comm := { params := { upgradeTime := none, rate := Dec.zero, upgradeRate := Dec.zero },
+                infl := { mintMin := Dec.zero, mintMax := Dec.zero, kavadistActive := true, communityTax := Dec.zero },
+                stk := { last := some 1700000000000000000, err := Dec.zero, pool := 0, fee := 0 } },
+      kd := { prev := some 1700000000000000000, periods := [],
+              infra := [⟨1600000000000000000, 1800000000000000000, ⟨P⟩⟩] },
+      supply := 100000000000000 }
+    (by decide) (by decide) (by decide) (by decide) (by decide) ⟨by decide, by decide, trivial⟩
+  have hp : chainBeginBlock .current true relPow18 1700000006000000000 0 0
+    { comm := { params := { upgradeTime := none, rate := Dec.zero, upgradeRate := Dec.zero },
+                infl := { mintMin := Dec.zero, mintMax := Dec.zero, kavadistActive := true, communityTax := Dec.zero },
+                stk := { last := some 1700000000000000000, err := Dec.zero, pool := 0, fee := 0 } },
+      kd := { prev := some 1700000000000000000, periods := [],
+              infra := [⟨1600000000000000000, 1800000000000000000, ⟨P⟩⟩] },
+      supply := 100000000000000 } = .panic := by decide
+  rw [hp] at hc
+  cases hc
+
+/-- the strongest simple true statement on the current code: with non-negative rates, pool and inflow, a
+    carried error in [0,1), a block time not before the last accumulation time and NO infrastructure
+    periods configured, the begin blockers of community, mint and kavadist never panic (in particular
+    `PayoutAccumulatedStakingRewards` never hits its `panic(err)`: the payout is within the pool). -/
+theorem C19_begin_block_no_panic_partial (v : Variant) (zp : Bool) (pow : Int → Int → Int)
+    (now inflow mintProv : Int)
+    (c : Chain) (hr : 0 ≤ c.comm.params.rate.m) (hur : 0 ≤ c.comm.params.upgradeRate.m)
+    (hl : ∀ l, c.comm.stk.last = some l → l ≤ now) (he : 0 ≤ c.comm.stk.err.m ∧ c.comm.stk.err.m < P)
+    (hp : 0 ≤ c.comm.stk.pool) (hin : 0 ≤ inflow) (hinfra : c.kd.infra = []) :
+    ∃ c', chainBeginBlock v zp pow now inflow mintProv c = .ok c' := by
+  rw [chain_eq]
+  obtain ⟨r, hr'⟩ := community_ok now inflow c.comm hr hur hl he hp hin
+  rw [hr']
+  obtain ⟨s, f, p⟩ := r
+  exact kavadist_no_infra v zp pow now _ hinfra
+
+example : (chainBeginBlock .current true relPow18 1700000006000000000 5 7
+    { comm := { params := { upgradeTime := none, rate := ⟨P⟩, upgradeRate := Dec.zero },
+                infl := { mintMin := Dec.zero, mintMax := Dec.zero, kavadistActive := true, communityTax := Dec.zero },
+                stk := { last := some 1700000000000000000, err := Dec.zero, pool := 100, fee := 0 } },
+      kd := { prev := some 1700000000000000000, periods := [⟨1600000000000000000, 1800000000000000000, ⟨P⟩⟩],
+              infra := [] },
+      supply := 100000000000000 }).isOk = true := by decide
 
 /-! ## (c) kavadist period windows -/
 
@@ -288,14 +345,19 @@ theorem C19_kavadist_inactive (v : Variant) (now : Int) (s : KdSt) :
     mintPeriodInflation v false now s = (s, [], [], 0) := by
   simp [mintPeriodInflation]
 
-/-- Bounding the seconds bounds the coins: with `RelativePow` monotone in its exponent (assumption,
-    monitored by the harness on the real function) the amount `mintInflationaryCoins` mints is monotone
+/-- Bounding the seconds bounds the coins: with `RelativePow` monotone in its exponent at the period's rate
+    (assumption, monitored by the harness on the real function for rates ≥ 1) the amount `mintInflationaryCoins` mints is monotone
     in `timeElapsed`, and non-negative when `RelativePow ≥ 10^18`. -/
-theorem C19_kavadist_amount_monotone (pow : Int → Int → Int)
-    (hpow : ∀ x n n', n ≤ n' → pow x n ≤ pow x n') (supply : Int) (hs : 0 ≤ supply) (rate : Dec)
+theorem C19_kavadist_amount_monotone (pow : Int → Int → Int) (supply : Int) (hs : 0 ≤ supply) (rate : Dec)
+    (hpow : ∀ n n', n ≤ n' → pow (inflationInt rate) n ≤ pow (inflationInt rate) n')
     (secs secs' : Int) (h : secs ≤ secs') :
-    mintAmount pow supply rate secs ≤ mintAmount pow supply rate secs' :=
-  mintAmount_mono pow hpow supply hs rate secs secs' h
+    mintAmount pow supply rate secs ≤ mintAmount pow supply rate secs' ∧
+    (P ≤ pow (inflationInt rate) secs → 0 ≤ mintAmount pow supply rate secs) :=
+  ⟨mintAmount_mono pow supply hs rate hpow secs secs' h, mintAmount_nonneg pow supply hs rate secs⟩
+
+/-- non-vacuity: the transcription of `RelativePow` at a realistic per-second rate -/
+example : mintAmount relPow18 1000000000000 ⟨1000000003022265980⟩ 3600 = 10880216 ∧
+    mintAmount relPow18 1000000000000 ⟨1000000003022265980⟩ 435600 = 1317366024 := by decide
 
 /-! ### The repaired code (findings/C19-kavadist-window.diff): full statement -/
 
@@ -318,6 +380,20 @@ example : mintIncentivePeriods .fixed 1700864000000000000
     [⟨0, ⟨1700432000000000000, 1700435600000000000, ⟨1000000003022265980⟩⟩,
       1700432000000000000, 1700435600000000000, 3600⟩] := by decide
 
+/-- FULL STATEMENT, proved for the code repaired by findings/C19-infra-zero-mint-panic.diff
+    (`zp = false`: a zero mint returns a proper zero coin): the begin blockers of community, mint and
+    kavadist never panic, whatever periods are configured. -/
+theorem C19_begin_block_no_panic (v : Variant) (pow : Int → Int → Int) (now inflow mintProv : Int)
+    (c : Chain) (hr : 0 ≤ c.comm.params.rate.m) (hur : 0 ≤ c.comm.params.upgradeRate.m)
+    (hl : ∀ l, c.comm.stk.last = some l → l ≤ now) (he : 0 ≤ c.comm.stk.err.m ∧ c.comm.stk.err.m < P)
+    (hp : 0 ≤ c.comm.stk.pool) (hin : 0 ≤ inflow) :
+    ∃ c', chainBeginBlock v false pow now inflow mintProv c = .ok c' := by
+  rw [chain_eq]
+  obtain ⟨r, hr'⟩ := community_ok now inflow c.comm hr hur hl he hp hin
+  rw [hr']
+  obtain ⟨s, f, p⟩ := r
+  exact kavadist_no_zp v pow now _
+
 /-- the repair changes nothing for periods that had started by the previous block time -/
 theorem C19_kavadist_fix_conservative (p : Period) (prev : Int) (h : p.start ≤ prev) :
     windowStart .fixed p prev = windowStart .current p prev := by
@@ -338,5 +414,22 @@ theorem C19_kavadist_window_live :
   first
     | exact Or.inl ⟨rfl, C19_kavadist_window_counterexample⟩
     | exact Or.inr ⟨rfl, Fixed.C19_kavadist_window⟩
+
+/-- the same for the begin-block panic and its switch `liveZeroMintPanics` -/
+theorem C19_begin_block_no_panic_live :
+    (liveZeroMintPanics = true ∧
+      ¬ (∀ (now : Int) (c : Chain), 0 ≤ c.comm.params.rate.m → 0 ≤ c.comm.params.upgradeRate.m →
+        (∀ l, c.comm.stk.last = some l → l ≤ now) → (0 ≤ c.comm.stk.err.m ∧ c.comm.stk.err.m < P) →
+        0 ≤ c.comm.stk.pool → validPeriods 0 c.kd.infra →
+        ∃ c', chainBeginBlock .current liveZeroMintPanics relPow18 now 0 0 c = .ok c')) ∨
+    (liveZeroMintPanics = false ∧
+      ∀ (v : Variant) (pow : Int → Int → Int) (now inflow mintProv : Int) (c : Chain),
+        0 ≤ c.comm.params.rate.m → 0 ≤ c.comm.params.upgradeRate.m →
+        (∀ l, c.comm.stk.last = some l → l ≤ now) → (0 ≤ c.comm.stk.err.m ∧ c.comm.stk.err.m < P) →
+        0 ≤ c.comm.stk.pool → 0 ≤ inflow →
+        ∃ c', chainBeginBlock v liveZeroMintPanics pow now inflow mintProv c = .ok c') := by
+  first
+    | exact Or.inl ⟨rfl, C19_begin_block_no_panic_counterexample⟩
+    | exact Or.inr ⟨rfl, Fixed.C19_begin_block_no_panic⟩
 
 end KV.Em
